@@ -84,6 +84,30 @@ def run(tier, seed, replay=None):
     cv = ck.validate(DIR, "AssignTrace", [c for c, _ in ctl], "negative controls")
     for (c, exp), v in zip(ctl, cv):
         ck.control(f"corrupted trace rejected ({exp})", (not v["ok"]) and v["why"] == exp, str(v))
+    # ---- step level: potentials and matching after every row insertion (hook events) against Hungarian.tla's invariants
+    sc = [c for c in cases[nexp:] if "expect" not in c][: 400 if tier == "quick" else 5000] + cases[:nexp][:100]
+    st = [x for r in run_tasks("assign", "run_hungarian_steps", sc, timeout=20) if isinstance(r, dict) for x in r.get("steps", [])]
+    if len(st) < len(sc):
+        raise tlc.MachineryError("hungarian stage traces could not be recorded (%d from %d matrices)" % (len(st), len(sc)))
+    sv = ck.validate(DIR, "HungarianSteps", st, "potentials and matching after every row insertion", timeout=3000)
+    for v in sv:
+        for d in v.get("div", []):
+            ck.divergences["stage:" + d] = ck.divergences.get("stage:" + d, 0) + 1
+    ck.extra["stage_level"] = {"calls": len(st), "stages_replayed": sum(v.get("stages", 0) for v in sv),
+                               "calls_with_divergence": sum(1 for v in sv if v.get("div"))}
+    sctl = []
+    for t, v in zip(st, sv):
+        if v.get("div") or t["n"] < 3:
+            continue
+        k = t["n"] - 1
+        c = copy.deepcopy(t); c["stages"][k]["u"][0] += 1; sctl.append((c, "Stage.|Final."))
+        c = copy.deepcopy(t); c["stages"][k]["match"][0], c["stages"][k]["match"][1] = c["stages"][k]["match"][1], c["stages"][k]["match"][0]; sctl.append((c, "Stage.matched_cell_not_tight|Stage."))
+        c = copy.deepcopy(t); c["stages"][1]["match"] = [0] * t["n"]; sctl.append((c, "Stage.not_a_matching"))
+        break
+    if not sctl:
+        raise tlc.MachineryError("no stage trace suitable for step-level controls")
+    for (c, exp), v in zip(sctl, ck.validate(DIR, "HungarianSteps", [c for c, _ in sctl], "stage-level negative controls")):
+        ck.control(f"corrupted stage record flagged ({exp})", any(d.startswith(tuple(exp.split("|"))) for d in v.get("div", [])), str(v)[:300])
     ck.rule = ("every 2x2, 2x3, 3x2 (3x3 thorough) matrix over {-1,0,2} exported by TLC with its optimum; random r x c matrices up to 7x7 "
                "with ties, negative and quarter-unit entries, int and float inputs, minimize and maximize; non-trivial = >= 2 cells")
     ck.exhaustive = True
